@@ -45,6 +45,9 @@ pub struct ScriptedReader {
     pub logging: bool,
     /// number of poll_read calls so far, readable while a future borrows the reader
     pub calls: Arc<std::sync::atomic::AtomicUsize>,
+    /// a fault bound to a BYTE POSITION (not to a call count): once `pos` reaches `.0` every further call answers
+    /// `.1`, preceded by `.2` not-ready answers; data steps never deliver past the position
+    pub fault_at: Option<(usize, RStep, usize)>,
 }
 
 impl ScriptedReader {
@@ -57,6 +60,7 @@ impl ScriptedReader {
             log: Vec::new(),
             logging: true,
             calls: Arc::new(std::sync::atomic::AtomicUsize::new(0)),
+            fault_at: None,
         }
     }
     /// everything at once, then EOF
@@ -73,7 +77,20 @@ impl AsyncRead for ScriptedReader {
     ) -> Poll<io::Result<()>> {
         let me = self.get_mut();
         me.calls.fetch_add(1, std::sync::atomic::Ordering::Relaxed);
-        let step = me.script.pop_front().unwrap_or(me.default);
+        let mut step = me.script.pop_front().unwrap_or(me.default);
+        let mut limit = usize::MAX;
+        if let Some((at, f, pend)) = me.fault_at.as_mut() {
+            if me.pos >= *at {
+                if *pend > 0 {
+                    *pend -= 1;
+                    step = RStep::Pending;
+                } else {
+                    step = *f;
+                }
+            } else {
+                limit = *at - me.pos;
+            }
+        }
         let cap = buf.remaining();
         // address of the first unfilled byte the decoder offers
         let addr = unsafe { buf.unfilled_mut().as_ptr() as usize };
@@ -102,7 +119,7 @@ impl AsyncRead for ScriptedReader {
             }
             RStep::Data(k) => {
                 let left = me.data.len() - me.pos;
-                let n = k.min(cap).min(left);
+                let n = k.min(cap).min(left).min(limit);
                 if n == 0 && cap > 0 {
                     entry.ans = "eof";
                 } else {
